@@ -164,11 +164,10 @@ func (p *Prog) verifyFunc(fn *ssa.Function, ct *Contract) (res *FuncResult) {
 	}
 	// unused call-site assertions are contract errors (vacuity)
 	for _, ca := range ct.CallAsrt {
-		if ca.Clause.Line > 0 {
+		if !ca.Used {
 			vc.errs = append(vc.errs, fmt.Sprintf("at-call assertion [%s] on %s#%d matched no call", ca.Clause.Label, ca.Callee, ca.Ord))
-		} else {
-			ca.Clause.Line = -ca.Clause.Line
 		}
+		ca.Used = false
 	}
 	for k := range ct.Loops {
 		found := false
